@@ -2,6 +2,8 @@
 
 positions    : every position of one / two metadata nodes in every sibling sequence of length <= 3 over 13 sibling
                kinds under 9 kinds of parent, three indent / eol settings                      (exhaustive)
+docpos       : plain metadata nodes at every position among <= 3 children (5 kinds) of a user's <html> / <head>,
+               through HTMLDocument.render()                                                  (exhaustive)
 with-without : random layout trees with metadata at generated positions                       (Hypothesis)
 """
 
@@ -159,6 +161,18 @@ def _body(case, note):
     memo_o: dict = {}
     w = [build(r, memo_w) for r in roots]
     wo = [build(r, memo_o) for r in bare]
+    if case.get("pick", 0) % 5 == 0:
+        # the children of every root tag are re-added one at a time with `+=` (a bare string is added as a string)
+        for objs_ in (w, wo):
+            for o in objs_:
+                if isinstance(o, h.Tag):
+                    kids_ = list(o.children)
+                    del o.children[:]
+                    for kd in kids_:
+                        if isinstance(kd, str) and not isinstance(kd, h.HTML):
+                            o.children += kd
+                        else:
+                            o.children += [kd]
     tlw, tlo = h.TagList(*w), h.TagList(*wo)
     if has_tfy:
         # markup can only be asked of an expanded tree: compare the expanded trees and the render() paths
@@ -304,22 +318,97 @@ def body_positions(case, note):
     sibs = [_pos_node(k) for k in case["sibs"]]
     if case["parent"] == "script":
         sibs = [x for x in sibs if x["k"] in ("text", "html")]
-    bare_roots = _pos_wrap(case["parent"], sibs)
-    bare = h.TagList(*[build(r) for r in bare_roots])
     settings = [(0, "\n"), (2, "\r\n"), (1, " ")]
-    want = [bare.get_html_string(i, e) for i, e in settings]
-    want_str = str(bare)
+
+    def make(kids, mode):
+        """mode 'ctor': through the constructor; 'iadd': the parent's children added one at a time with += (text as a bare string)"""
+        roots = _pos_wrap(case["parent"], kids if mode == "ctor" else [])
+        objs = [build(r) for r in roots]
+        if mode == "iadd":
+            target = objs[0].children if case["parent"] != "list" else None
+            if target is None:
+                tl = h.TagList()
+                target = tl
+            for kd in kids:
+                o = build(kd)
+                if isinstance(o, str) and not isinstance(o, h.HTML):
+                    target += o
+                else:
+                    target += [o]
+            if case["parent"] == "list":
+                return target
+        return h.TagList(*objs)
+
     n = 0
-    for pos in range(len(sibs) + 1):
-        for metas in ([POS_META[pos % 3]], [POS_META[(pos + 1) % 3], POS_META[0]]):
-            kids = sibs[:pos] + metas + sibs[pos:]
-            x = h.TagList(*[build(r) for r in _pos_wrap(case["parent"], kids)])
-            for (i, e), w in zip(settings, want):
-                got = x.get_html_string(i, e)
-                check(got == w, f"metadata at position {pos} of {case['sibs']} under a {case['parent']} parent changes get_html_string({i}, {e!r})", w, got)
-            check(str(x) == want_str and x.render()["html"] == want_str, f"metadata at position {pos} of {case['sibs']} under a {case['parent']} parent changes str() / render()", want_str, str(x))
-            n += 1
+    for mode in ("ctor", "iadd"):
+        bare = make(sibs, mode)
+        want = [bare.get_html_string(i, e) for i, e in settings]
+        want_str = str(bare)
+        for pos in range(len(sibs) + 1):
+            for metas in ([POS_META[pos % 3]], [POS_META[(pos + 1) % 3], POS_META[0]]):
+                x = make(sibs[:pos] + metas + sibs[pos:], mode)
+                for (i, e), w in zip(settings, want):
+                    got = x.get_html_string(i, e)
+                    check(got == w, f"metadata at position {pos} of {case['sibs']} under a {case['parent']} parent ({mode}) changes get_html_string({i}, {e!r})", w, got)
+                check(str(x) == want_str and x.render()["html"] == want_str, f"metadata at position {pos} of {case['sibs']} under a {case['parent']} parent ({mode}) changes str() / render()", want_str, str(x))
+                n += 1
     note(True, "parent:" + case["parent"])
+
+
+DOC_KINDS = ["meta-charset", "title", "text", "block", "script-child"]
+
+
+def enum_docpos(tier):
+    for where in ("html", "head"):
+        for n in range(0, 4):
+            for sibs in itertools.product(DOC_KINDS, repeat=n):
+                yield {"where": where, "sibs": list(sibs)}
+
+
+def _doc_node(kind):
+    return {
+        "meta-charset": {"k": "tag", "name": "meta", "ws": True, "attrs": [["charset", "latin1"]], "kids": []},
+        "title": {"k": "tag", "name": "title", "ws": True, "attrs": [], "kids": [{"k": "text", "s": "T"}]},
+        "text": {"k": "text", "s": "x"},
+        "block": {"k": "tag", "name": "div", "ws": True, "attrs": [], "kids": [{"k": "text", "s": "d"}]},
+        "script-child": {"k": "tag", "name": "script", "ws": True, "attrs": [["src", "u.js"]], "kids": []},
+    }[kind]
+
+
+class _MyMeta:
+    pass
+
+
+def body_docpos(case, note):
+    """plain metadata nodes (and subclass instances) at every position among the children of a user's <html> / <head>:
+    HTMLDocument.render() / save_html must produce the same document as without them"""
+    import htmltools as h
+
+    class Marker(h.MetadataNode):
+        pass
+
+    def doc(kids_recipes, metas_at):
+        kids = []
+        for i, r in enumerate(kids_recipes + [None]):
+            for mk in metas_at.get(i, []):
+                kids.append(h.MetadataNode() if mk == 0 else Marker())
+            if r is not None:
+                kids.append(build(r))
+        if case["where"] == "head":
+            page = h.Tag("html", h.Tag("head", *kids), h.Tag("body", "b"))
+        else:
+            page = h.Tag("html", *kids, h.Tag("head", h.Tag("title", "t")), h.Tag("body", "b"))
+        return h.HTMLDocument(page, lang="en")
+
+    sibs = [_doc_node(k) for k in case["sibs"]]
+    want = doc(sibs, {}).render()["html"]
+    for pos in range(len(sibs) + 1):
+        for metas in ([0], [1], [0, 1]):
+            d = doc(sibs, {pos: metas})
+            got = d.render()["html"]
+            check(got == want, f"plain metadata node(s) at position {pos} among the children {case['sibs']} of the user's <{case['where']}> change HTMLDocument.render()", want, got)
+            check(d.render()["html"] == want, "... on the second rendering", want)
+    note(True, "where:" + case["where"])
 
 
 RULE = (
@@ -329,6 +418,7 @@ RULE = (
 )
 
 CLAUSES = [
+    Clause("docpos", body_docpos, source="enum", enum=enum_docpos, shards_quick=2, shards_thorough=4, rule="every case"),
     Clause("positions", body_positions, source="enum", enum=enum_positions, shards_quick=8, shards_thorough=16, rule="every case"),
     Clause(
         "with-without",
